@@ -202,22 +202,49 @@ class Automaton:
         return n, f, l, follow
 
     # ---- language
-    def accepts(self, word):
+    def step(self, cur, name, version='1.0'):
+        """successor position set; XSD 1.1: when an element particle and a wildcard both match the item, the element
+        particle wins (Structures 1.1, 3.8.4.1: competition is resolved in favour of the element declaration)"""
+        nxt = set()
+        for s in cur:
+            succ = self.first if s == 0 else self.follow[s]
+            for q in succ:
+                if self.leaves[q].matches(name):
+                    nxt.add(q)
+        if version == '1.1' and any(self.leaves[q].kind == 'e' for q in nxt):
+            nxt = {q for q in nxt if self.leaves[q].kind == 'e'}
+        return nxt
+
+    def accepting(self, cur):
+        return any((s == 0 and self.nullable) or (s != 0 and s in self.last) for s in cur)
+
+    def accepts(self, word, version='1.0'):
         if self.top_all is not None:
             return self._accepts_all(word)
-        states = None          # None = initial
         cur = {0}
         for name in word:
-            nxt = set()
-            for s in cur:
-                succ = self.first if s == 0 else self.follow[s]
-                for q in succ:
-                    if self.leaves[q].matches(name):
-                        nxt.add(q)
-            if not nxt:
+            cur = self.step(cur, name, version)
+            if not cur:
                 return False
-            cur = nxt
-        return any((s == 0 and self.nullable) or (s != 0 and s in self.last) for s in cur)
+        return self.accepting(cur)
+
+    def accepts_open(self, word, mode, ns, version='1.1'):
+        """XSD 1.1 Structures 3.4.4.2 (Element Sequence Locally Valid, Complex Content), open content: an item is left
+        to the open-content wildcard only where it cannot extend the path in the model (interleave), resp. the model
+        path is maximal and everything after it matches the wildcard (suffix)."""
+        if self.top_all is not None:
+            raise ValueError("open content over an all-group is outside the oracle")
+        cur = {0}
+        for i, name in enumerate(word):
+            nxt = self.step(cur, name, version)
+            if nxt:
+                cur = nxt
+                continue
+            if mode == 'suffix':
+                return self.accepting(cur) and all(wild_allows(ns, x) for x in word[i:])
+            if not wild_allows(ns, name):
+                return False
+        return self.accepting(cur)
 
     def _accepts_all(self, word):
         model, members = self.top_all
@@ -288,8 +315,8 @@ class Automaton:
         return None
 
 
-def accepts(model, word, subst=None):
-    return Automaton(model, subst).accepts(word)
+def accepts(model, word, subst=None, version='1.0'):
+    return Automaton(model, subst).accepts(word, version)
 
 
 def deterministic(model, version='1.0', subst=None):
@@ -345,6 +372,14 @@ def _selftest():
     al = ('a', [E(a), E(b, 0, 1)], 1, 1)
     assert accepts(al, [b, a]) and accepts(al, [a]) and not accepts(al, [b]) and not accepts(al, [a, a])
     assert render(m2) == '(a, c+, a*)+'
+    # 1.1 element wins over wildcard: (a | any*) : 'a a' is invalid (first a is the element, the choice is over)
+    mc = ('c', [E(a), ('w', '##any', 0, None)], 1, 1)
+    assert accepts(mc, [a, a], None, '1.0') and not accepts(mc, [a, a], None, '1.1') and accepts(mc, [b, a], None, '1.1')
+    # open content: (a, (b, c)?) interleave any: 'a b' invalid (b extends the model path, c missing); 'b a' valid
+    mo = ('s', [E(a), ('s', [E(b), E(c)], 0, 1)], 1, 1)
+    au = Automaton(mo)
+    assert not au.accepts_open([a, b], 'interleave', '##any') and au.accepts_open([b, a], 'interleave', '##any')
+    assert au.accepts_open([a, c, c], 'suffix', '##any') and not au.accepts_open([c, a], 'suffix', '##any')
 
 
 _selftest()
